@@ -1698,6 +1698,248 @@ def tta_specs(draw) -> dict:
 
 
 
+# =========================================================================== RREFinder
+
+RRE_LEVELS = ("class", "module", "main")
+RRE_DATABASE = os.path.join(os.sep, "verif-no-such-dir", "rrefinder", "RREFam.hmm")
+RRE_NAMES = {"Lanthipeptide_RRE": "RREFam001.1", "Stand_Alone_Lasso_RRE": "RREFam006.1", "Thiopeptide_F_RRE": "RREFam021.1",
+             "PqqD_RRE": "RREFam008.2"}
+
+
+def _rre_options(cutoff: float, min_length: int):
+    return _options(["--rre", "--rre-cutoff", repr(float(cutoff)), "--rre-minlength", str(int(min_length))])
+
+
+def _rre_original(spec: dict, record):
+    """ what run_rrefinder does after the HMMER run: build_hits with the cutoff as (exclusive) minimum, then
+        extract_rre_hits, filter_hits and the results object """
+    from antismash.common import hmmer, pfamdb
+    from antismash.modules.rrefinder import rrefinder
+    pfamdb.KNOWN_MAPPINGS[RRE_DATABASE] = dict(RRE_NAMES)
+    by_profile: dict = {}
+    for hsp in spec["hsps"]:
+        by_profile.setdefault(hsp["hit_id"], []).append(types.SimpleNamespace(
+            query_id=hsp["gene"], hit_id=hsp["hit_id"], query_start=hsp["s"], query_end=hsp["e"],
+            evalue=hsp["ev"], bitscore=hsp["sc"], hit_description=hsp["desc"]))
+    fake = [types.SimpleNamespace(id=name, hsps=hsps) for name, hsps in by_profile.items()]
+    hits = hmmer.build_hits(record, fake, spec["cutoff"], 1, RRE_DATABASE)
+    found = hmmer.HmmerResults(record.id, 1, spec["cutoff"], RRE_DATABASE, "rrefinder", hits)
+    by_cds = rrefinder.extract_rre_hits(found)
+    candidates = {int(number): list(names) for number, names in spec["candidates"].items()}
+    by_cds, by_proto = rrefinder.filter_hits(by_cds, candidates, spec["min_length"], spec["cutoff"])
+    return rrefinder.RREFinderResults(record.id, float(spec["cutoff"]), int(spec["min_length"]), by_proto, by_cds)
+
+
+def _rre_trimmed(model: dict, got: dict, cutoff: float, min_length: int, where: dict) -> dict:
+    """ judges results regenerated under stricter thresholds: they say which thresholds they are complete for
+        (the ones asked for), keep every hit above the cutoff that is long enough, drop every hit below the cutoff
+        or too short (a score exactly on the cutoff may go either way: the HMMER run excludes it, the filter keeps
+        it), keep the order, and list per protocluster exactly the genes that still have hits """
+    if set(got) != set(model):
+        raise Violation("refilter_fields", dict(where, got=sorted(got), want=sorted(model)))
+    for key in ("schema_version", "record_id"):
+        if got[key] != model[key]:
+            raise Violation("refilter_fields", dict(where, field=key, got=got[key], want=model[key]))
+    if got["bitscore_cutoff"] != float(cutoff) or got["min_length"] != int(min_length):
+        raise Violation("thresholds_not_recorded", dict(where, recorded=[got["bitscore_cutoff"], got["min_length"]],
+                                                        used=[cutoff, min_length]))
+    for name, hits in got["hits_by_cds"].items():
+        saved = model["hits_by_cds"].get(name)
+        if saved is None or not hits:
+            raise Violation("refilter_kept_excluded_hit", dict(where, gene=name))
+        may = [hit for hit in saved if hit["score"] >= cutoff and hit["protein_end"] - hit["protein_start"] >= min_length]
+        position = 0
+        for hit in hits:
+            while position < len(may) and may[position] != hit:
+                position += 1
+            if position == len(may):
+                raise Violation("refilter_kept_excluded_hit", dict(where, gene=name, hit=hit))
+            position += 1
+    for name, saved in model["hits_by_cds"].items():
+        for hit in saved:
+            if hit["score"] > cutoff and hit["protein_end"] - hit["protein_start"] >= min_length \
+                    and hit not in got["hits_by_cds"].get(name, []):
+                raise Violation("refilter_dropped_valid_hit", dict(where, gene=name, hit=hit))
+    want_proto = {}
+    for number, names in model["hits_by_protocluster"].items():
+        left = [name for name in names if name in got["hits_by_cds"]]
+        if left:
+            want_proto[number] = left
+    if got["hits_by_protocluster"] != want_proto:
+        raise Violation("refilter_protocluster_listing", dict(where, got=got["hits_by_protocluster"], want=want_proto))
+    return got
+
+
+def check_rre(spec: dict) -> dict:
+    try:
+        return _check_rre(spec)
+    finally:
+        _cleanup()
+
+
+def _check_rre(spec: dict) -> dict:
+    from unittest import mock
+    from antismash import main
+    from antismash.modules import rrefinder as module
+    cls = module.RREFinderResults
+
+    record = _hmmer_record(spec, spec["rid"])
+    _rre_options(spec["cutoff"], spec["min_length"])
+    made = _guard(lambda: _rre_original(spec, record))
+    if made[0] != "ok":
+        return {"nontrivial": False, "classes": ["build_failed_" + made[1]]}
+    original = made[1]
+    model = _loads(_dumps(original.to_json()))
+    classes: set = set()
+    changed = False
+
+    def apply(results, target) -> tuple:
+        return _guard(lambda: results.add_to_record(target))[:2]
+
+    applied0 = apply(original, record)
+    snap0 = _guard(lambda: _snapshot(record))
+    text0 = _dumps(model)
+    if _dumps(original.to_json()) != text0:
+        raise Violation("json_identity", {"stage": "post", "step": -1})
+    current_text = text0
+    saved = (float(spec["cutoff"]), int(spec["min_length"]))   # what the saved generation is complete for
+    for number, step in enumerate(spec["steps"]):
+        level = step["level"]
+        change = step.get("change")
+        data = _loads(current_text)
+        where = {"step": number, "level": level, "change": change, "saved_thresholds": list(saved)}
+        record_id = spec["rid"]
+        asked = (float(spec["cutoff"]), int(spec["min_length"]))
+        strict = False
+        if change:
+            changed = True
+            classes.add(f"change_{change['kind']}")
+            if change["kind"] == "schema":
+                strict = True
+                if change["value"] == "missing":
+                    data.pop("schema_version")
+                else:
+                    data["schema_version"] = change["value"]
+            elif change["kind"] == "record_id":
+                strict = True
+                record_id = change["value"]
+            elif change["kind"] == "thresholds":
+                asked = (float(change["value"][0]), int(change["value"][1]))
+            else:
+                raise AssertionError(change["kind"])
+        options = _rre_options(*asked)
+        fresh = _hmmer_record(spec, record_id)
+        classes.add(f"level_{level}")
+
+        def work():
+            if level == "class":
+                return cls.from_json(data, fresh)
+            if level == "module":
+                return module.regenerate_previous_results(data, fresh, options)
+            options.all_enabled_modules = [module]
+            module_results = {module.__name__: data}
+
+            def rerun(*_args, **_kwargs):
+                raise RuntimeError("the analysis would be run again")
+            with _no_external_tools(), mock.patch.object(module, "run_rrefinder", rerun):
+                main.run_module(fresh, module, options, module_results, {})
+            return module_results.get(module.__name__)
+        outcome = _guard(work)
+        laxer = asked[0] < saved[0] or asked[1] < saved[1]
+        if strict or laxer:
+            if laxer:
+                classes.add("asked_laxer_than_saved")
+            if _refused(outcome):
+                classes.add("refused")
+                continue
+            raise Violation("changed_setting_reused", dict(where, asked=list(asked),
+                                                           returned=type(outcome[1]).__name__))
+        if outcome[0] == "exc":
+            raise Violation("regenerate_failed", dict(where, exception=outcome[1], message=outcome[2]))
+        if outcome[1] is None:
+            raise Violation("regenerate_discarded", dict(where, asked=list(asked)))
+        again = outcome[1]
+        if not isinstance(again, cls):
+            raise Violation("regenerate_type", dict(where, returned=type(again).__name__))
+        text = _dumps(again.to_json())
+        if asked == saved:
+            _compare_text("json_identity", text, current_text, dict(where, stage="pre"))
+        else:
+            classes.add("asked_stricter_than_saved")
+            before = sum(len(hits) for hits in model["hits_by_cds"].values())
+            model = _rre_trimmed(model, _loads(text), asked[0], asked[1], dict(where, asked=list(asked)))
+            if sum(len(hits) for hits in model["hits_by_cds"].values()) < before:
+                classes.add("stricter_thresholds_dropped_hits")
+            saved = asked
+        applied = apply(again, fresh)
+        snap = _guard(lambda: _snapshot(fresh))
+        if _dumps(model) == text0:
+            want_applied, want_snap = applied0, snap0
+        else:
+            classes.add("effects_of_trimmed_results")
+            twin_record = _hmmer_record(spec, record_id)
+            twin = _guard(lambda: cls.from_json(_loads(_dumps(model)), twin_record))
+            if twin[0] != "ok" or twin[1] is None:
+                raise Violation("regenerate_failed", dict(where, outcome=twin[:2], stage="expected JSON"))
+            want_applied = apply(twin[1], twin_record)
+            want_snap = _guard(lambda: _snapshot(twin_record))
+        if applied != want_applied:
+            raise Violation("apply_outcome", dict(where, original=want_applied, regenerated=applied))
+        if snap[0] != want_snap[0]:
+            raise Violation("effects", dict(where, original=want_snap[:2] if want_snap[0] == "exc" else "ok",
+                                            regenerated=snap[:2] if snap[0] == "exc" else "ok"))
+        if snap[0] == "ok":
+            _compare_text("effects", snap[1], want_snap[1], where)
+        _compare_text("json_identity", _dumps(again.to_json()), text, dict(where, stage="post"))
+        current_text = text
+    count = sum(len(hits) for hits in original.hits_by_cds.values())
+    classes.add(f"steps_{len(spec['steps'])}")
+    classes.add(f"hits_{min(count, 3)}")
+    if applied0[0] == "exc":
+        classes.add("apply_raises_" + str(applied0[1]))
+    return {"nontrivial": count >= 2 or changed, "classes": sorted(classes)}
+
+
+@st.composite
+def rre_specs(draw) -> dict:
+    length = draw(st.integers(600, 1800))
+    genes = draw(gen.gene_layout(length, False, max_genes=5, min_genes=2, size_hint=300, allow_span=False))
+    kept, seen = [], set()
+    for gene in genes:
+        parts = gene["loc"]["parts"]
+        if len(parts) != 1:
+            continue
+        parts[0][1] -= (parts[0][1] - parts[0][0]) % 3
+        key = (parts[0][0], parts[0][1], gene["loc"]["strand"])
+        if parts[0][1] - parts[0][0] >= 60 and key not in seen:
+            seen.add(key)
+            kept.append(gene)
+    genes = kept or [{"name": "g0", "loc": {"parts": [[3, 243]], "strand": 1, "kind": "simple"}}]
+    thresholds = [[25.0, 50], [25.0, 10], [30.0, 10], [35.0, 10], [35.0, 50], [30.0, 20], [25.5, 10], [40.0, 12], [20.0, 5]]
+    cutoff, min_length = draw(st.sampled_from([[25.0, 10], [25.0, 10], [30.0, 10], [30.0, 20], [35.0, 10], [25.0, 50]]))
+    hsps = []
+    for _ in range(draw(st.integers(1, 8))):
+        gene = draw(st.sampled_from(genes))
+        amino = (gene["loc"]["parts"][0][1] - gene["loc"]["parts"][0][0]) // 3 - 1
+        size = min(amino, draw(st.sampled_from([9, 10, 11, 12, 19, 20, 21, 30, 50, 60, 60])))
+        start = draw(st.integers(0, amino - size))
+        hsps.append({"gene": gene["name"], "hit_id": draw(st.sampled_from(sorted(RRE_NAMES))), "s": start, "e": start + size,
+                     "ev": draw(st.sampled_from([1e-40, 3.3e-09, 1e-05, 0.001, 0.2])),
+                     "sc": draw(st.sampled_from([20.0, 25.5, 28.0, 30.0, 30.5, 32.0, 35.0, 35.5, 40.0, 40.0, 41.0, 100.5])),
+                     "desc": draw(st.sampled_from(["RRE-containing protein in a lanthipeptide cluster", "x"]))})
+    candidates = {}
+    for number in range(1, draw(st.integers(1, 3)) + 1):
+        candidates[str(number)] = draw(st.lists(st.sampled_from([g["name"] for g in genes]), min_size=1, unique=True))
+    changes = [{"kind": "schema", "values": [2, 0, "1", "missing", None]},
+               {"kind": "record_id", "values": ["rec2", "rec1 ", "REC1"]},
+               {"kind": "thresholds", "values": thresholds}, {"kind": "thresholds", "values": thresholds}]
+    steps = draw(simple_history(RRE_LEVELS, changes, change_odds=2))
+    for step in steps:
+        step.pop("src")
+    return {"L": length, "genes": genes, "rid": "rec1", "cutoff": cutoff, "min_length": min_length, "hsps": hsps,
+            "candidates": candidates, "steps": steps}
+
+
 SUBCHECKS = {
     "rules": check_rules,
     "sideload": check_sideload,
@@ -1705,6 +1947,7 @@ SUBCHECKS = {
     "hmmer": check_hmmer,
     "hmmresult": check_hmmresult,
     "tta": check_tta,
+    "rre": check_rre,
 }
 
 
@@ -1730,3 +1973,4 @@ def run(ctx) -> None:
     ctx.hyp("hmmer", hmmer_specs(), max_examples=ctx.pick(700, 15000), shards=shards)
     ctx.hyp("tta", tta_specs(), max_examples=ctx.pick(700, 15000), shards=shards)
     ctx.hyp("hmmresult", hmmresult_specs(), max_examples=ctx.pick(1000, 16000), shards=shards)
+    ctx.hyp("rre", rre_specs(), max_examples=ctx.pick(600, 12000), shards=shards)
